@@ -593,6 +593,9 @@ def run_ops(ops, journal, rng=None, nops=0, stats=None, alloc_mode='guard'):
         try:
             apply(op, w, stats)
             check_world(w, name)
+            bad = SPS.check_indices()
+            if bad:
+                raise Mismatch('operand-modified', '%s: %s' % (name, bad), op=name, operand='index')
             nv, txt = SPS.seam_check()
             if nv:
                 raise Mismatch('allocator-seam', 'after %s: %s' % (name, txt), op=name)
@@ -640,6 +643,10 @@ def run_unit(seed, tier, r, journal):
             res['nontrivial_digests'].append(core.sha(done))
         if v is not None:
             res['violations'].append({'case': {'ops': done, 'alloc_mode': mode}, 'violation': v})
+            # the interpreter's state is suspect after a violation (reference counts, heap): report now instead
+            # of dying in a later, innocent history — unless it is a listed known finding (a refusal)
+            if not core.match_known(core.load_known(PROPERTY), v['sig']):
+                break
         if k == 0 and r % 16 == 0:
             res['samples'].append({'ops': done[:14], 'total_ops': len(done), 'alloc_mode': mode})
     res['digest'] = ulog.digest()
